@@ -467,6 +467,7 @@ pub fn is_significant(population: usize, successes: usize) -> bool {
     (population > 30)
     // 2. The number of successes and failures are large enough to ensure that the sampling distribution of the sample proportion is approximately normal (x > 5 and n - x > 5)
     && (successes > 5)
+    && (successes <= population)
     && (population - successes > 5)
 }
 
